@@ -20,6 +20,24 @@ import (
 	"verif/harness/internal/core"
 )
 
+// earlyMinUpload: uploads from this size on can be gated: the beginning of the upload must be larger
+// than the buffers on the way (4 KiB in the proxy's reader and in the transport's writer), or it
+// never reaches the origin before the end does. A chunked upload needs much more: net/http's chunked
+// reader does not return in the middle of a chunk while its caller's buffer (32 KiB in io.Copy) has room.
+const earlyMinUpload = 16384
+const earlyMinChunkedUpload = 1 << 20
+
+// earlyOK: can this exchange run in the early-answering mode?
+func earlyOK(it *item) bool {
+	if it.n("ea", 0) <= 0 || it.s("o", "ok") != "ok" {
+		return false
+	}
+	if it.s("rf", "cl") == "ch" && it.s("pv", "11") != "10" {
+		return it.n("rb", 0) >= earlyMinChunkedUpload
+	}
+	return it.n("rb", 0) >= earlyMinUpload
+}
+
 func (w *world) earlyChan(id string) chan struct{} {
 	w.mu.Lock()
 	defer w.mu.Unlock()
@@ -38,7 +56,7 @@ func (w *world) earlyChan(id string) chan struct{} {
 // false when the exchange does not qualify (then the caller answers the ordinary way).
 func (e *Ex) originEarly(c net.Conn, req *http.Request, id string, it *item) (upload []byte, readErr error, closeAfter bool, handled bool) {
 	n := it.n("ea", 0)
-	if n <= 0 || it.s("o", "ok") != "ok" {
+	if !earlyOK(it) {
 		return nil, nil, false, false
 	}
 	full, closeAfter := originResponse(id, it)
@@ -48,6 +66,7 @@ func (e *Ex) originEarly(c net.Conn, req *http.Request, id string, it *item) (up
 	}
 	first := make([]byte, n)
 	k, err := io.ReadFull(req.Body, first)
+
 	if err != nil {
 		// the upload is shorter than announced: answer the ordinary way with what there is
 		rest, _ := io.ReadAll(req.Body)
@@ -67,20 +86,39 @@ func (e *Ex) originEarly(c net.Conn, req *http.Request, id string, it *item) (up
 // then sends the rest of the upload in pieces.
 func (e *Ex) sendGated(cc *clientConn, req []byte, id string) error {
 	headEnd := bytes.Index(req, []byte("\r\n\r\n")) + 4
-	firstLen := headEnd + (len(req)-headEnd)/2
+	firstLen := headEnd + (len(req)-headEnd)/2 // at least earlyMinUpload/2: more than the buffers on the way hold back
 	if _, err := cc.c.Write(req[:firstLen]); err != nil {
 		return err
 	}
-	select {
-	case <-e.w.earlyChan(id):
-		core.Count("early:origin-answered-before-upload-end")
-		// the response head is on its way back through the proxy; not a verdict, only a pause
-		cc.c.SetReadDeadline(time.Now().Add(400 * time.Millisecond))
-		if _, err := cc.br.Peek(1); err == nil {
-			core.Count("early:client-saw-response-before-upload-end")
+
+	// wait for the origin to start answering - unless the connection is already gone (an earlier
+	// exchange closed it) or a response shows up without it (the request never reached the origin)
+	ch := e.w.earlyChan(id)
+	deadline := time.Now().Add(5 * time.Second)
+wait:
+	for {
+		select {
+		case <-ch:
+			core.Count("early:origin-answered-before-upload-end")
+			// the response head is on its way back through the proxy: give the round trip time to return
+			// (not a verdict, only a pause; a shorter one only makes the schedule less likely)
+			time.Sleep(60 * time.Millisecond)
+			break wait
+		default:
 		}
-	case <-time.After(5 * time.Second):
-		core.Count("early:origin-never-answered-early")
+		cc.c.SetReadDeadline(time.Now().Add(20 * time.Millisecond))
+		_, err := cc.br.Peek(1)
+		switch {
+		case err == nil:
+			core.Count("early:answered-without-the-origin")
+			break wait
+		case !isTimeout(err):
+			core.Count("early:connection-gone")
+			return err
+		case time.Now().After(deadline):
+			core.Count("early:origin-never-answered-early")
+			break wait
+		}
 	}
 	rest := req[firstLen:]
 	pieces := 8
